@@ -39,6 +39,15 @@ func (s Set) FriendlyName() string {
 	return "set"
 }
 
+func (s Set) Validate() error {
+	if c, ok := s.Elem.(Validatable); ok {
+		if err := c.Validate(); err != nil {
+			return fmt.Errorf("Elem: %T: %w", s.Elem, err)
+		}
+	}
+	return nil
+}
+
 func (s Set) Copy() Constraint {
 	var elem Constraint
 	if s.Elem != nil {
